@@ -1085,29 +1085,51 @@ impl<'c> Gen<'c> {
                 )))
             }
             3 => {
-                // re-entry into a dynamic-wind body: before runs again
+                // re-entry into a dynamic-wind body (1-3 nested extents): the before thunks run
+                // again, outermost first; optionally the re-entering call sits in a sibling wind
+                // which is left on the way (common-ancestor rewinding)
                 self.feat("dynamic-wind");
                 self.feat("reentry-into-wind");
                 self.feat("continuation-reentry");
+                let levels = self.c.range(1, 3);
+                let sibling = self.c.chance(1, 3);
+                if levels >= 2 {
+                    self.feat("reentry-into-nested-winds");
+                }
+                if sibling {
+                    self.feat("reentry-from-sibling-wind");
+                }
+                let mut inner = Expr::DynamicWind(
+                    Box::new(before),
+                    Box::new(lambda(&[], Body { defs: vec![], exprs: vec![Expr::CallCC(Box::new(lambda(&["k"], Body::single(app("set-box!", vec![var("kb"), var("k")]))))), app("display", vec![string("in")])] })),
+                    Box::new(after),
+                );
+                for lv in 1..levels {
+                    let t = format!("{}{}", ["a", "b", "c"][lv as usize % 3], tag);
+                    inner = Expr::DynamicWind(
+                        Box::new(lambda(&[], Body::single(app("display", vec![string(&format!("<{}", t))])))),
+                        Box::new(lambda(&[], Body { defs: vec![], exprs: vec![inner, app("display", vec![string(&format!("mid{}", lv))])] })),
+                        Box::new(lambda(&[], Body::single(app("display", vec![string(&format!("{}>", t))])))),
+                    );
+                }
+                let reenter = begin(vec![
+                    app("set-box!", vec![var("cnt"), app("+", vec![app("unbox", vec![var("cnt")]), int(1)])]),
+                    call(app("unbox", vec![var("kb")]), vec![int(0)]),
+                ]);
+                let reenter = if sibling {
+                    Expr::DynamicWind(
+                        Box::new(lambda(&[], Body::single(app("display", vec![string("<s")])))),
+                        Box::new(lambda(&[], Body::single(reenter))),
+                        Box::new(lambda(&[], Body::single(app("display", vec![string("s>")])))),
+                    )
+                } else {
+                    reenter
+                };
                 Expr::Let(
                     vec![("kb".into(), app("box", vec![boolean(false)])), ("cnt".into(), app("box", vec![int(0)]))],
                     Box::new(Body {
                         defs: vec![],
-                        exprs: vec![
-                            Expr::DynamicWind(
-                                Box::new(before),
-                                Box::new(lambda(&[], Body { defs: vec![], exprs: vec![Expr::CallCC(Box::new(lambda(&["k"], Body::single(app("set-box!", vec![var("kb"), var("k")]))))), app("display", vec![string("in")])] })),
-                                Box::new(after),
-                            ),
-                            iff(
-                                app("<", vec![app("unbox", vec![var("cnt")]), int(n)]),
-                                begin(vec![
-                                    app("set-box!", vec![var("cnt"), app("+", vec![app("unbox", vec![var("cnt")]), int(1)])]),
-                                    call(app("unbox", vec![var("kb")]), vec![int(0)]),
-                                ]),
-                                app("unbox", vec![var("cnt")]),
-                            ),
-                        ],
+                        exprs: vec![inner, iff(app("<", vec![app("unbox", vec![var("cnt")]), int(n)]), reenter, app("unbox", vec![var("cnt")]))],
                     }),
                 )
             }
